@@ -145,7 +145,7 @@ def _set_with_op(container: Any, key: Any, op: str, value: Any) -> Any:
     elif op == '-=':
         container[key] -= value
     elif op == '*=':
-        container[key] *= value
+        container[key] = _multiply(container[key], value)
     elif op == '/=':
         container[key] /= value
     else:
@@ -315,6 +315,14 @@ def _reversed(container: Union[list, str]):
 def _check_array_size(arr: Union[list, dict]):
     if len(arr) >= MAX_ARRAY_SIZE:
         raise ParserError(f'Array size overflow: {MAX_ARRAY_SIZE}')
+
+
+def _multiply(op1: Any, op2: Any) -> Any:
+    # same rule as the '*' operator: numbers only, computed as decimals
+    if not isinstance(op1, (Decimal_, int, float)) or not isinstance(op2, (Decimal_, int, float)):
+        raise ParserError(f'Can\'t multiply non-numbers')
+
+    return Decimal(op1) * Decimal(op2)
 
 
 def _check_concat_size(op1: Any, op2: Any):
